@@ -26,6 +26,9 @@ type C17Case struct {
 	Value  string         `json:"value,omitempty"`
 	Format string         `json:"format,omitempty"`
 	Doc    map[string]any `json:"doc,omitempty"`
+	// Written: env-enum - the value as written in the document (a reference to $V, or the value padded with blanks);
+	// Value is what V resolves to
+	Written string `json:"written,omitempty"`
 }
 
 type schemaCtx struct {
@@ -349,6 +352,20 @@ func enumC17(env *engine.Env, yield func(any) bool) {
 			}
 		}
 	}
+	// an enumerated setting written as an environment reference (or padded): if the parser and the packager take it,
+	// the schema must take the document as written
+	for _, e := range c17Enums {
+		for _, v := range e.values {
+			if v == "" || strings.Join(e.path, ".") == "overrides.{key}" {
+				continue
+			}
+			for _, w := range []string{"${V}", " " + v + " ", "$V"} {
+				if !yield(C17Case{Part: "env-enum", Path: e.path, Value: v, Format: e.format, Written: w}) {
+					return
+				}
+			}
+		}
+	}
 	t := &fixture.Tree{Root: "/T"}
 	for _, e := range c01Templates() {
 		d := map[string]any(Setting{Name: "default"}.doc([]model.Entry{e}, t.Root))
@@ -410,8 +427,11 @@ func c17Doc(env *engine.Env, c C17Case) map[string]any {
 			setDeep(d, []string{"overrides", "{fmt}", "contents", "[]", "dst"}, "/x")
 		}
 		return d
-	case "enum":
+	case "enum", "env-enum":
 		d := c17Base()
+		if c.Part == "env-enum" {
+			c.Value = c.Written
+		}
 		switch strings.Join(c.Path, ".") {
 		case "contents.[].type":
 			e := map[string]any{"dst": "/opt/x", "type": c.Value}
@@ -543,6 +563,56 @@ func checkC17(env *engine.Env, ci any) engine.Outcome {
 		}
 		if len(sp) < 50 {
 			out.HarnessError = fmt.Sprintf("schema walk found only %d paths", len(sp))
+		}
+	case "env-enum":
+		d := c17Doc(env, c)
+		jv, err := toJSONValue(d)
+		if err != nil {
+			out.HarnessError = err.Error()
+			return out
+		}
+		var serrs, unsup []string
+		sc.validate(sc.root, jv, "", &serrs, &unsup)
+		dd := deepCopyMap(d)
+		dd["mtime"] = PkgMTime
+		text := fixture.Doc(dd).YAML()
+		buildWith := func(v string) bool {
+			cfg, perr := parseYAML(text, func(k string) string {
+				if k == "V" {
+					return v
+				}
+				return ""
+			})
+			if perr != nil {
+				return false
+			}
+			_, _, berr := packageFrom(&cfg, c.Format)
+			out.Transitions++
+			return berr == nil
+		}
+		// control: a packager that takes the text whatever V is (e.g. any version_schema other than "none" means semver)
+		// is lenient about an undocumented value, it does not resolve the reference; only a reference that is
+		// resolved makes the written form a value the packagers accept
+		built := buildWith(c.Value) && !buildWith("zz-not-a-valid-value")
+		if strings.TrimSpace(c.Written) == c.Value {
+			// the padded literal: no reference involved; the control is a padded invalid literal
+			cc := c
+			cc.Written = " zz-not-a-valid-value "
+			cd := deepCopyMap(c17Doc(env, cc))
+			cd["mtime"] = PkgMTime
+			lenient := false
+			if cfg, err := parseYAML(fixture.Doc(cd).YAML(), nil); err == nil {
+				_, _, berr := packageFrom(&cfg, c.Format)
+				lenient = berr == nil
+			}
+			built = buildWith(c.Value) && !lenient
+		}
+		out.Key = fmt.Sprintf("env-enum:%s:%q:%s:%v:%v", strings.Join(c.Path, "."), c.Written, c.Value, built, len(serrs) == 0)
+		if built {
+			out.Nontrivial = true
+			if len(serrs) > 0 {
+				viol("schema:rejects-accepted-value:"+pathKey(c.Path)+":written-as-reference", "%s written as %q (V=%q) is accepted by the parser and built by the %s packager, the schema rejects the document: %v", strings.Join(c.Path, "."), c.Written, c.Value, c.Format, serrs)
+			}
 		}
 	case "enum", "config":
 		d := c17Doc(env, c)
